@@ -265,6 +265,40 @@ def node_t1(F, res):
     res.floor("Node impl methods on ADTs", n, 18)
 
 
+def s_stages(F, res):
+    """S-STAGES: compiler-evaluated built-ins read the compiler's state (the body compiled in the previous round), so they are
+    a stage of *every* round: in the resolver's pass function (found by role, helpers inlined) the application of the compiler
+    as visitor (`Node::apply`) is present, comes after apply_fees and before the inputs are resolved and the template is
+    compiled - and resolve_tx applies it nowhere outside the pass.  Hoisted in front of the loop the built-ins keep the values
+    of round 0 while fees and inputs move on: the result is no longer the one the staged application defines."""
+    from .. import e8_state
+    g = e8_state.pass_body(F)
+    cfg = mir.CFG(g)
+    pfn = e8_state.resolver_roles(F)[1]
+
+    def is_visit(t):
+        return (t.get("trait") == "tx3_tir::Node" and t.get("method") == "apply") or (t.get("resolved") or "").endswith("as tx3_tir::Node>::apply")
+    visits = [bi for bi, t in mir.calls(g) if is_visit(t)]
+    comp = [bi for bi, t in mir.calls(g) if t.get("trait") == "tx3_tir::compile::Compiler" and t.get("method") == "compile"]
+    fees = [bi for bi, t in mir.calls(g) if call_matches(t, "tx3_tir::reduce::apply_fees") or is_trait_call(t, c06.APPLY, "apply_fees")]
+    key = "%s|compiler built-ins are evaluated in every round" % pfn
+    w = where(F.body(pfn))
+    if not comp:
+        raise BrokenCheck("the pass function (helpers inlined) never calls Compiler::compile")
+    if not visits:
+        outer = e8_state.loop_body(F)
+        hoisted = [t["line"] for bi, t in mir.calls(outer) if is_visit(t)]
+        res.add([finding("S-STAGES", key, where(F.body(e8_state.resolver_roles(F)[0]), hoisted[0]) if hoisted else w,
+                         "the pass function does not apply the compiler's built-ins%s: `min_utxo` and the other compiler-evaluated operations keep the value of an earlier state while fees and inputs change from round to round" % (
+                             " (they are applied once, outside the loop)" if hoisted else ""))])
+        return
+    good = all(any(cfg.dominates(v, c) for v in visits) for c in comp) and (not fees or all(any(cfg.dominates(f_, v) for f_ in fees) for v in visits))
+    if good:
+        res.add([ok("S-STAGES", key, w, "apply_fees, then Node::apply(compiler), then inputs and compile - inside the pass")])
+    else:
+        res.add([finding("S-STAGES", key, w, "in the pass function the compiler's built-ins are not applied between apply_fees and compile on every path")])
+
+
 def run(ctx):
     F = ctx.F
     res = Result("C07")
@@ -285,4 +319,6 @@ def run(ctx):
     s_pure(F, res)
     shadow(F, res)
     s_nested(F, res)
+    res.rule("S-STAGES", "compiler-evaluated built-ins are a stage of every round of the resolver (after apply_fees, before compile)")
+    s_stages(F, res)
     return res
